@@ -628,6 +628,17 @@ fn gen_table(rng: &mut Rng, name: &str, existing: &[Tbl]) -> Tbl {
                 on_delete: if rng.coin() { Some(*rng.pick(&ACTIONS)) } else { None },
                 on_update: if rng.coin() { Some(*rng.pick(&ACTIONS)) } else { None },
             });
+            if rng.chance(1, 3) {
+                // a second key to the same parent, with actions of its own or none at all
+                t.fks.push(Fk {
+                    name: Some(format!("fk2_{name}")),
+                    cols: vec![rng.pick(&plain).clone()],
+                    ref_table: parent.name.clone(),
+                    ref_cols: vec![parent.cols[0].name.clone()],
+                    on_delete: if rng.chance(1, 3) { Some(*rng.pick(&ACTIONS)) } else { None },
+                    on_update: if rng.chance(1, 3) { Some(*rng.pick(&ACTIONS)) } else { None },
+                });
+            }
         }
     }
     if rng.chance(1, 4) {
